@@ -1,10 +1,25 @@
-"""C17 — generated wiring; generators come from tools/gens/*.py (gen_C17) of the units in tools/units.py."""
+"""C17 — the 32-bit and 64-bit curve backends are observationally equivalent.
+The C12–C15 workloads run through the default and the force-32bits harness binaries; both must answer what the
+Spec answers (hence the same as each other). That the feature build compiles is part of the property."""
 from props import _auto
 
 LEAN_MODULES = _auto.lean_modules("C17")
-VARIANTS = ['default', 'force32']
-RULE = 'the C12-C15 workloads run through the default and the force-32bits harness binaries, compared with each other and with the Spec; non-trivial = any; distinct = distinct case lines'
-TRUSTED = ["hand-written Lean models (lean/CxVerif/Impl, Spec) tied to the code by the correspondence run and by tables re-extracted from /repo/src"]
+VARIANTS = ["default", "force32"]
+BUILD_FAILURE_IS_VIOLATION = {"force32": True}
+RULE = ("unit generators gen_C17 plus the C12, C13, C14, C15 workloads (ops that exist in both backends), run through the default and "
+        "the force-32bits builds and compared byte for byte with each other and with the Spec; non-trivial = any; distinct = distinct case lines")
+TRUSTED = ["hand-written Lean models tied to the code by the correspondence run",
+           "fe32 mul/square and scalar32 reduction are covered by the correspondence, not by a refinement proof (see DESIGN C17)"]
 ASSUMPTIONS = []
-gen = _auto.make_gen("C17")
 nontrivial = _auto.default_nontrivial
+# ops that only exist for the 64-bit backend (hooks on 56-bit-limb internals) are skipped for force32
+ONLY64 = ("scalar.add ", "scalar.mul ", "scalar64.", "fe64.")
+
+
+def gen(tier, rng):
+    yield from _auto.make_gen("C17")(tier, rng)
+    for prop, k in (("C12", 2), ("C13", 2), ("C14", 2), ("C15", 3)):
+        kk = k if tier == "quick" else 1
+        for i, (line, kind) in enumerate(_auto.make_gen(prop)(tier, rng)):
+            if i % kk == 0 and not line.startswith(ONLY64):
+                yield (line, f"{prop}/{kind}")
